@@ -13,6 +13,16 @@ package recent_history
 //   beta'        = (beta-dagger ++ (h = Blake2b(E(header)), b, s = 0, p)) keeping the last H
 // The model shares only the hash primitives (x/crypto blake2b / sha3) with the
 // repository; in particular it does not call merkle_tree, mmr or the codec.
+//
+// Two paths run the same generated histories: the store-level path (the two STF
+// entry points on the blockchain singleton) and the function-level path
+// (History2HistoryDagger / serLastAccOut / lastAccOutRoot / AppendAndCommitMmr /
+// MapWorkReportFromEg / NewItem / AddItem2BetaHPrime called directly). In both the
+// history is carried from step to step in the slices the implementation itself
+// returned (never re-copied), a step may be a FORK step (two different blocks
+// applied to the same prior state, the first posterior inspected again afterwards)
+// and header hashes repeat (headers are drawn from a small pool), because the
+// statement appends an entry for EVERY block.
 
 import (
 	"bytes"
@@ -57,6 +67,10 @@ type c25Entry struct {
 	Beefy  uint32   `json:"b"`
 	State  uint32   `json:"s"`
 	Pkgs   []c25Pkg `json:"p"`
+	// HeaderOfBlock > 0: the entry's header hash is the header hash of
+	// Blocks[HeaderOfBlock-1] (that block's header is already recorded in the prior
+	// history); 0 or out of range: SHA-256 tag Header as before.
+	HeaderOfBlock int `json:"hob,omitempty"`
 }
 
 type c25Block struct {
@@ -72,6 +86,13 @@ type c25Block struct {
 	TicketMark bool     `json:"tickets_mark"` // header carries a tickets mark (EpochLength tickets)
 	Pkgs       []c25Pkg `json:"pkgs"`         // guarantees in extrinsic order (NOT sorted)
 	Outs       []c25Out `json:"outs"`         // theta' in sequence order
+
+	// Fork step: after this block has been applied to the current prior state, Sibling
+	// (a different block; its own Sibling is ignored) is applied to the SAME prior
+	// state. The chain continues from this block's posterior state, or from the
+	// sibling's when ContinueSibling is set.
+	Sibling         *c25Block `json:"sibling,omitempty"`
+	ContinueSibling bool      `json:"continue_sibling,omitempty"`
 }
 
 type c25Input struct {
@@ -80,6 +101,8 @@ type c25Input struct {
 	MmrCount uint32     `json:"mmr_count"` // prior beta_B = peaks of an MMR that has had MmrCount appends
 	MmrSeed  uint32     `json:"mmr_seed"`
 	Blocks   []c25Block `json:"blocks"`
+	// InitSpare: spare capacity (cap-len) of the prior history slice handed to the first block
+	InitSpare int `json:"init_spare,omitempty"`
 }
 
 // ---- expansion of compact values -------------------------------------------
